@@ -63,6 +63,14 @@ def ops_for(r: fr.RefAction, full: bool, step: int):
             if full:
                 out.append(["sel_kw", dim, r.labels[dim][-1], True])
             labs = r.labels[dim]
+            if n >= 2 and len(set(map(str, labs))) == len(labs):
+                others = [d for d in r.dims if d != dim and r.sizes[d] >= 2]
+                out.append(["transform_sel", dim, [labs[-1], labs[0]], None])
+                if full:
+                    out.append(["transform_sel", dim, list(labs), None])
+                    out.append(["transform_sel", dim, [labs[-1]], None])
+                if others:
+                    out.append(["transform_sel", dim, [labs[-1], labs[0]], others[0]])
             for lab in ([labs[0], [labs[-1]], list(labs[::-1])] if full else [labs[-1], list(labs[::-1])]):
                 out.append(["sel", dim, lab])
     if nodims >= 1 and nd >= 1 and "e" not in r.dims and "t" not in r.dims:
